@@ -925,6 +925,23 @@ namespace hgraph
                                  !runtime.layout.has_input() ||
                                  ready_to_evaluate(view, evaluation_time);
 
+            // The scheduler step that follows every evaluation: consume the event(s) that fired, or - when the
+            // node ran for another reason - re-arm its pending timer in the graph.
+            const auto settle_scheduler = [&] {
+                if (!has_scheduler) { return; }
+                auto         &graph = *view.graph_value();
+                NodeScheduler sched{*scheduler, &graph, view.node_index(), evaluation_time};
+                if (scheduled_now)
+                {
+                    sched.advance();  // consume the fired event(s) and re-arm the next
+                }
+                else if (sched.is_scheduled())
+                {
+                    // Ran for another reason (an input ticked): just re-arm the timer.
+                    graph.schedule_node(view.node_index(), sched.next_scheduled_time());
+                }
+            };
+
             if (do_eval)
             {
                 if (callbacks(context).evaluate)
@@ -946,24 +963,32 @@ namespace hgraph
                                                                    write_node_error(runtime, view, evaluation_time, error);
                                                                }));
                     }
-                    else { callbacks(context).evaluate(view, evaluation_time); }
+                    else
+                    {
+                        try
+                        {
+                            callbacks(context).evaluate(view, evaluation_time);
+                        }
+                        catch (...)
+                        {
+                            // The exception may be caught above this node (try_except, per-key capture of a
+                            // map_) and the run go on: the node did have its turn, so its scheduler must be
+                            // settled exactly as after any other evaluation. A fired event left behind would
+                            // stay the earliest one for ever and swallow every later request of this node.
+                            try
+                            {
+                                settle_scheduler();
+                            }
+                            catch (...)
+                            {
+                            }
+                            throw;
+                        }
+                    }
                 }
             }
 
-            if (has_scheduler)
-            {
-                auto         &graph = *view.graph_value();
-                NodeScheduler sched{*scheduler, &graph, view.node_index(), evaluation_time};
-                if (scheduled_now)
-                {
-                    sched.advance();  // consume the fired event(s) and re-arm the next
-                }
-                else if (sched.is_scheduled())
-                {
-                    // Ran for another reason (an input ticked): just re-arm the timer.
-                    graph.schedule_node(view.node_index(), sched.next_scheduled_time());
-                }
-            }
+            settle_scheduler();
             return true;
         }
 
